@@ -21,7 +21,34 @@ import verif_probes as vp
 _LOCK = threading.Lock()
 
 
-def node(detector, faults=None, arg=None, arg2=None, count_key=None, write_all=False, set_tag=False):
+class BaseProbeError(BaseException):
+    """Custom class that is NOT an `Exception` subclass (like KeyboardInterrupt / SystemExit)."""
+
+
+# classes the shared injector `verif_probes.fail` does not know (round 2): BaseException subclasses
+# that an `except Exception` handler does not see, and two Exception subclasses with a special role
+# (StopIteration ends iterators, FloatingPointError is what numpy's errstate raises)
+EXC_C09 = {"KeyboardInterrupt": KeyboardInterrupt, "SystemExit": SystemExit, "BaseProbeError": BaseProbeError,
+           "StopIteration": StopIteration, "FloatingPointError": FloatingPointError}
+
+
+def _raise(detector, cls, msg):
+    if cls in EXC_C09:
+        raise EXC_C09[cls](msg)
+    vp.fail(detector, cls=cls, msg=msg)
+
+
+def _inject(detector, f):
+    """Raise the injected exception; `chained`: while another exception is being handled."""
+    if f.get("chained"):
+        try:
+            raise LookupError("inner-" + f["msg"])
+        except LookupError:
+            _raise(detector, f["cls"], f["msg"])
+    _raise(detector, f["cls"], f["msg"])
+
+
+def node(detector, faults=None, arg=None, arg2=None, count_key=None, write_all=False, set_tag=False, case_id=None):
     step = int(detector.pipeline_count)
     name = detector.current_running_model_name
     t = float(detector.environment.temperature)
@@ -34,7 +61,10 @@ def node(detector, faults=None, arg=None, arg2=None, count_key=None, write_all=F
         if count_key is not None:
             n = vp.COUNTERS.get(count_key, 0)
             vp.COUNTERS[count_key] = n + 1
-        vp.TRACE.append(dict(probe="node", name=name, step=step, t=t, q=q, n=n, tag=tag, arg=vp._jsonable(arg)))
+        # case_id: worker threads of an EARLIER case (dask keeps running the other cells after a failure)
+        # may still be logging; the driver keeps only the entries of the case it is running
+        vp.TRACE.append(dict(probe="node", name=name, step=step, t=t, q=q, n=n, tag=tag, arg=vp._jsonable(arg),
+                             case=case_id))
     if write_all:
         geo = detector.geometry
         v = float(arg) if isinstance(arg, (int, float, np.floating)) else 1.0
@@ -55,4 +85,8 @@ def node(detector, faults=None, arg=None, arg2=None, count_key=None, write_all=F
             continue
         if "tag" in f and f["tag"] != tag:
             continue
-        vp.fail(detector, cls=f["cls"], msg=f["msg"])
+        if f.get("corrupt"):
+            # no exception here: leave a bucket in a state the debug capture (Detector.to_xarray) cannot read
+            detector.pixel._array = np.zeros((1, 1, 1, 1))
+            continue
+        _inject(detector, f)
